@@ -55,7 +55,7 @@ func bucket(n int) string {
 func TestC13(t *testing.T) {
 	c := h.New(t, "C13")
 	defer c.Finish()
-	c.Rule("(a) atomicity: 2-3 threads x 1-4 operations (define set get delete delete-nearest define-type type copy-then-read-all value/type symbol listing String) on one shared scope with a parent, names a b c, every written value unique, random initial contents (shared value table possibly never created); schedule = list of ints, at each scheduling decision choice mod number-of-enabled-threads, first enabled thread once exhausted; yield points = every Lock/RLock/Unlock/RUnlock of package env; non-trivial = >=1 preemption (switch away from a thread that could have continued) and two threads touch the same name of the same table with >=1 writer (copy/listing/String touch every name); distinct by program + executed schedule")
+	c.Rule("(a) atomicity: 2-3 threads x 1-4 operations (define set get delete delete-nearest define-type type copy-then-read-all value/type symbol listing String) on one shared scope with a parent, names a b c, every written value unique, random initial contents (shared value table possibly never created); in 1 of 6 programs two threads are made to delete-nearest one name bound in both scopes; schedule = list of 0-80 ints in 0..5; at each scheduling decision the enabled threads are listed in thread order starting with the thread that ran last (if it can continue) and choice mod number-of-enabled-threads picks one (0 = no switch; also used once the list is exhausted); yield points = every Lock/RLock/Unlock/RUnlock of package env; non-trivial = >=1 preemption (switch away from a thread that could have continued) and two threads touch the same name of the same table with >=1 writer (copy/listing/String touch every name); distinct by program + executed schedule")
 	c.Rule("(b) race: the same programs, real goroutines (start order and start barrier varied per repetition), real locks, GOMAXPROCS 16, race detector with halt_on_error in a child process; evaluations count program x repetition; non-trivial = two goroutines touch the same name with >=1 writer; distinct by program")
 
 	withString := stringUsable()
@@ -70,10 +70,11 @@ func TestC13(t *testing.T) {
 	// ---------- (a) ----------
 	broken := false
 	var hookOps, decisions, preempts int64
-	h.Run(c, "atomicity", c.N(3000, 30000),
+	h.Run(c, "atomicity", c.N(5000, 30000),
 		func(t *rapid.T) SchedCase {
 			p := genProg(t, withString)
-			return SchedCase{Prog: p, Schedule: rapid.SliceOfN(rapid.IntRange(0, 5), 0, 64).Draw(t, "schedule")}
+			n := rapid.IntRange(0, 80).Draw(t, "schedule_len")
+			return SchedCase{Prog: p, Schedule: rapid.SliceOfN(rapid.IntRange(0, 5), n, n).Draw(t, "schedule")}
 		},
 		func(tc SchedCase, o *h.Obs) *h.Fail {
 			if err := validProg(tc.Prog); err != nil {
@@ -134,7 +135,7 @@ func TestC13(t *testing.T) {
 			order, ok := explain(tc.Prog, out.results, out.final)
 			if !ok {
 				sig := "C13|not-sequentially-consistent"
-				if len(delnearPair(tc.Prog)) > 0 {
+				if pairSurvives(tc.Prog, out.final) {
 					sig += "|two-delete-nearest-of-one-name"
 				}
 				return h.Failf(sig, "no one-at-a-time order of the operations (respecting each thread's order) produces these results and this final state\n%sfinal   %s\nexecuted schedule (thread per step): %v\nlock trace:\n  %s",
@@ -164,7 +165,7 @@ func TestC13(t *testing.T) {
 	}
 	var runs int64
 	raceBroken, raceStopped := false, false
-	h.Run(c, "race", c.N(200, 2000),
+	h.Run(c, "race", c.N(300, 2000),
 		func(t *rapid.T) RaceCase { return RaceCase{Prog: genProg(t, withString), Reps: reps} },
 		func(tc RaceCase, o *h.Obs) *h.Fail {
 			if err := validProg(tc.Prog); err != nil || tc.Reps < 1 || tc.Reps > 5000 {
@@ -232,7 +233,7 @@ func TestC13(t *testing.T) {
 			}
 			if out.resp.NonSC != "" {
 				sig := "C13|not-sequentially-consistent"
-				if len(delnearPair(tc.Prog)) > 0 {
+				if pairSurvives(tc.Prog, out.resp.NonSC) {
 					sig += "|two-delete-nearest-of-one-name"
 				}
 				return h.Failf(sig, "real goroutines, real locks: no one-at-a-time order of the operations produces these results and this final state\n%s", out.resp.NonSC)
